@@ -718,7 +718,8 @@ SaveAs ==
        /\ fnode' = C.fnode /\ flink' = C.flink /\ fpg' = C.fpg
        /\ mem' = L.mem /\ kids' = L.kids /\ pg' = L.pg /\ reg' = L.reg
        /\ Ok("SaveAs", [x |-> 0], C.foot)
-    /\ held' = {} /\ mode' = "r+" /\ dirty' = {} /\ saved' = TRUE
+    \* save_as re-opens the SAME Workspace object on the new file with its default, i.e. the mode it was constructed with
+    /\ held' = {} /\ mode' = cmode /\ dirty' = {} /\ saved' = TRUE
     /\ UNCHANGED <<fopt, w2, w2pg>>
 
 \* shared.utils.fetch_active_workspace(ws, mode=m) used as a context manager (utils.py:95-123): when the workspace is
